@@ -6,7 +6,7 @@ from props import datalayer as dl
 class C17(PropBase):
     id = 'C17'
     rule = ('for first writes and overwrites of several Sids: a crash injected before the first file-system effect, after every written prefix of the (temporary) file '
-            '(each byte boundary in thorough, sampled in quick), before and after the replacement; then reads of the Sid and of its neighbours, a search, and a further set; '
+            '(each byte boundary in thorough, sampled in quick), before and after the replacement, and - independently of how the writer is coded - right before its n-th call that changes the file system; then reads of the Sid and of its neighbours, a search, and a further set; '
             'sidecars corrupted by truncation (at each byte of a sidecar holding non-ASCII values), emptied, or replaced by a directory; non-trivial = an injected crash or corruption; distinct by (scenario, crash point)')
     partial_note = 'durability (fsync) and real-kernel atomicity of rename are assumptions; the crash is simulated by intercepting pathlib / os from the harness'
     def confdir(self, ws):
@@ -18,6 +18,8 @@ class C17(PropBase):
         points = [('before', 0), ('partial', 0), ('partial', 1), ('partial', 7), ('partial', 5000), ('before_replace', 0), ('after_replace', 0)]
         if tier != 'quick':
             points += [('partial', n) for n in range(2, 60)]
+        # and, independently of how the writer is coded, right before its n-th call that changes the file system
+        points += [('syscall', n) for n in range(0, 4)]
         for target in (sid_a, sid_d):
             for overwrite in (False, True):
                 for mode, n in points:
